@@ -13,7 +13,7 @@ CONSTANTS MaxBlocks,
           Prelude      \* a sequence of blocks other blocks depend on (tags, types, enum, macro), placed before or after
                        \* the chosen blocks -- declarations are order-independent, so both must behave alike; <<>> = none
 PreludeNone == <<>>
-PreludeDeps == <<"tag1", "tag2", "t1", "e1", "mac">>
+PreludeDeps == <<"tag1", "tag2", "t1", "t2", "t5", "e1", "mac">>
 VARIABLES bs, pre
 vars == <<bs, pre>>
 Init == bs = <<>> /\ pre \in (IF Prelude = <<>> THEN {"none"} ELSE {"none", "before", "after"})
